@@ -20,7 +20,8 @@ def main(argv):
         b = {i: runner.execute_isolated(p, seed, i)["digest"] for i in idxs}
         c = runner.fresh_digests(p, seed, idxs, "quick", hashseed="3")
         d = runner.fresh_digests(p, seed, idxs, "quick", hashseed="12345")
-        mism = [i for i in idxs if not (a[i] == b[i] == c[str(i)] == d[str(i)])]
+        mism = [i for i in idxs
+                if not (a[i] == b[i] == c[str(i)][0] == d[str(i)][0])]
         runner.say(f"selftest {p}: {len(idxs)} runs x 4 executions, "
                    f"mismatches={mism}")
         bad += len(mism)
